@@ -84,6 +84,11 @@ def ask_siblings(ctx, db):
                         seen_bad = seen_bad or (f, 'a finished generator is asked again without no_more_values_exception', tr)
                     else:
                         refused = True
+                        # the refusal unwinds the future that is being constructed: its promise must not have been parked in the generator
+                        kept = [it for it in tr if (it.k == 'call' and norm(it.get('callee') or '').endswith('operator=') and norm(it.get('field') or it.get('lfield') or '') == P + '::_awaiting') or
+                                (it.k == 'write' and field_of(it) == P + '::_awaiting')]
+                        if kept:
+                            seen_bad = seen_bad or (f, 'the caller\'s promise is stored in the generator before the finished test refuses the call: it dangles once the refused future is gone and is resolved later into freed memory', tr)
                 elif live(tr):
                     if done is None:
                         seen_bad = seen_bad or (f, 'a path asks without testing whether the coroutine is finished (resuming a finished coroutine is undefined)', tr)
